@@ -239,6 +239,13 @@ def illumina_scenarios(draw):
                 a = max(ex[i][0], ex[i][1] - 30)
                 b = min(ex[i + 1][1], ex[i + 1][0] + 30)
                 short.append(R.make_read("s%d" % len(short), g["chr"], [[a, ex[i][1]], [ex[i + 1][0], b]]))
+            if src.bool(0.3) and ex[i][1] - ex[i][0] > 40 and ex[i + 1][1] - ex[i + 1][0] > 40:
+                # a second short-read junction 4 bases beside the first one, on both sides: a long-read junction that is 4
+                # bases off on one side is equally close to both
+                d = src.choice([-4, 4])
+                a = max(ex[i][0], ex[i][1] - 30)
+                b = min(ex[i + 1][1], ex[i + 1][0] + 30)
+                short.append(R.make_read("s%d" % len(short), g["chr"], [[a, ex[i][1] + d], [ex[i + 1][0] + d, b]]))
     sc["short_reads"] = short
     sc["hidden_genes"] = sc["genes"]
     sc["genes"] = []
@@ -263,6 +270,23 @@ def evaluate_illumina(case, ctx):
         if res.code != 0 or not bedp:
             ctx.note("crash:" + res.crash_signature())
             return
+        if len(sc["short_reads"]) >= 2:
+            # the same short reads given as two files (each with the contigs it has records on), second half first
+            half = len(sc["short_reads"]) // 2
+            ssc2 = {"chroms": sc["chroms"], "nfiles": 2, "prune_headers": True,
+                    "reads": [dict(r, file=(0 if i >= half else 1)) for i, r in enumerate(sc["short_reads"])]}
+            sp2 = build.write_bams(ssc2, paths["genome"], os.path.join(d, "in"), prefix="shortsplit")
+            res2 = pipeline.run_case(sc, ctx, extra=["--illumina_bam"] + sp2, d=d, paths=paths, out_name="out_split",
+                                     home=os.path.join(d, "home_split"))
+            b2 = res2.path("corrected_reads.bed")
+            if res2.code != 0 or not b2:
+                ctx.violation("C14:illumina:split-short-read-files-fail:" + res2.crash_signature().split("@")[0],
+                              {"log": res2.log_tail(8)}, case)
+            elif sorted(parse.data_lines(bedp)) != sorted(parse.data_lines(b2)):
+                a_, b_ = sorted(parse.data_lines(bedp)), sorted(parse.data_lines(b2))
+                diff = [x for x in a_ if x not in b_][:1] + [x for x in b_ if x not in a_][:1]
+                ctx.violation("C14:illumina:result-depends-on-how-the-short-reads-are-split-into-files",
+                              {"records": [x[:200] for x in diff]}, case)
         lens = {c[0]: c[1] for c in sc["chroms"]}
         inputs = {(r["n"], r["c"]): [tuple(x) for x in R.cigar_blocks(r["p"], r["cg"])] for r in sc["reads"]}
         sl, sr = {}, {}
